@@ -226,6 +226,15 @@ class Catalogue:
                 d.ops.append(Op("query", None, [FieldSel("__typename")]))
                 d.order.append(("op", len(d.ops) - 1))
             self.add("lone-anonymous-operation", "anonymous operation added next to named ones", fn)
+
+        def all_anonymous(d):
+            # every operation anonymous (>= 2 of them): no named one is left
+            for o in d.ops:
+                o.name = None
+            if len(d.ops) < 2:
+                d.ops.append(Op("query", None, [FieldSel("__typename")]))
+                d.order.append(("op", len(d.ops) - 1))
+        self.add("lone-anonymous-operation", "all operations anonymous (two or more)", all_anonymous)
         # single root field
         for oi, op in enumerate(doc.ops):
             if op.kind == "subscription":
